@@ -70,7 +70,8 @@ type target struct {
 	RangeVars map[string]string // Go types of the range variables of that loop (name -> type text)
 	Fields    []string          // ext_shaping.go: constructor target: the result is the tuple of these fields of the returned struct literal
 	// ext_isostat.go
-	NilRes []string // result types (source text, e.g. "*Rule") reported as a Z code like an error: 0 = nil, Errs[expr] otherwise
+	NilRes    []string // result types (source text, e.g. "*Rule") reported as a Z code like an error: 0 = nil, Errs[expr] otherwise
+	LoopFrame int      // N >= 1: the whole function with its N-th top-level loop replaced by the parameter loop_fn (carried tuple -> carried tuple)
 }
 
 var targets = []target{
@@ -1105,7 +1106,10 @@ func (x *tr) exec1(stmts []ast.Stmt, rest [][]ast.Stmt) string { // called throu
 		if out, ok := x.commaOk(s, tail, rest); ok {
 			return out
 		}
-		if x.appendAct(s) || x.ptrHint(s) { // ext_isostat.go
+		if d, ok := desugarOpAssign(s); ok { // ext_isostat.go
+			return x.exec(append([]ast.Stmt{d}, tail...), rest)
+		}
+		if x.appendAct(s) || x.ptrHint(s) || x.ptrActAssign(s) || x.newObject(s) { // ext_isostat.go
 			return x.exec(tail, rest)
 		}
 		if x.opaqueMulti(s) { // effects.go
@@ -1292,11 +1296,17 @@ func (x *tr) exec1(stmts []ast.Stmt, rest [][]ast.Stmt) string { // called throu
 	case *ast.EmptyStmt:
 		return x.exec(tail, rest)
 	case *ast.RangeStmt:
+		if x.isFrameLoop(s) {
+			return x.frameLoop(s, s.Body, nil, tail, rest) // ext_isostat.go
+		}
 		if x.loop.is(s) {
 			return x.loopEnter(s) // the loop of a LoopBody target (loopbody.go)
 		}
 		return x.execLoop(s, tail, rest) // effects.go
 	case *ast.ForStmt:
+		if x.isFrameLoop(s) {
+			return x.frameLoop(s, s.Body, s, tail, rest) // ext_isostat.go
+		}
 		if x.loop.is(s) {
 			return x.loopEnter(s) // the loop of a LoopBody target (loopbody.go)
 		}
@@ -1346,6 +1356,8 @@ func coqType(t string) string {
 		return "bool"
 	case t == "tokres":
 		return "(Z * Z)"
+	case strings.HasPrefix(t, "fn:"):
+		return fnCoqType(t) // ext_isostat.go
 	}
 	return "?"
 }
